@@ -27,7 +27,8 @@ class CHECK(Check):
             "list, sibling with its own table) x version tables = every subset of the key alphabet "
             "{v1,v10,v2,V2,''} in every declaration order x request strings below/between/equal/above the keys x "
             "1-4 successive selections on any user class x three file families; a case is non-trivial when at "
-            "least one selection changes an active list; distinct = distinct case hash")
+            "least one selection changes an active list; distinct = distinct case hash"
+            " Later additions: the empty string as a version key.")
     exhaustive = False
     assumptions = ["Python attribute lookup on classes (MRO of single inheritance) is modelled, not verified"]
 
